@@ -288,7 +288,17 @@ func (s *routeSel) isElem(v ssa.Value) bool {
 		return false
 	}
 	ia, ok := ld.X.(*ssa.IndexAddr)
-	return ok && an.IsRangeIdx(ia.Index) && an.Strip(ia.X) == an.Strip(s.routesLoad)
+	if !ok || !an.IsRangeIdx(ia.Index) {
+		return false
+	}
+	if an.Strip(ia.X) == an.Strip(s.routesLoad) {
+		return true
+	}
+	// another read of the same field m.routes (`for i := 0; i < len(m.routes); i++ { r := m.routes[i] ...`): the
+	// function holding the loop never assigns the field, so both reads see the same slice header
+	b1, ok1 := fieldLoad(ia.X, G, "Mux", "routes")
+	b2, ok2 := fieldLoad(s.routesLoad, G, "Mux", "routes")
+	return ok1 && ok2 && an.Strip(b1) == an.Strip(b2) && len(fieldStores([]*ssa.Function{s.fn}, G, "Mux", "routes")) == 0
 }
 
 // matched: block b (of s.fn) is control-dependent on elem.match(req) == true
@@ -664,19 +674,46 @@ func (c *Ctx) checkRouteRegister() {
 		// the route literal appended to m.routes
 		var routeType string
 		var opConst string
-		for _, fs := range fieldStores([]*ssa.Function{f}, G, "Mux", "routes") {
-			if call, ok := fs.Store.Val.(*ssa.Call); ok {
-				// appended element: varargs array store
-				if sl, ok := call.Common().Args[1].(*ssa.Slice); ok {
-					if al, ok := sl.X.(*ssa.Alloc); ok {
-						for _, r := range *al.Referrers() {
-							if ia, ok := r.(*ssa.IndexAddr); ok {
-								for _, rr := range *ia.Referrers() {
-									if st, ok := rr.(*ssa.Store); ok {
-										routeType = ptrNamed(an.Strip(st.Val).Type())
+		// the element appended to a Mux's routes in g: the value stored into the varargs array of the append
+		appended := func(g *ssa.Function) []ssa.Value {
+			var out []ssa.Value
+			for _, fs := range fieldStores([]*ssa.Function{g}, G, "Mux", "routes") {
+				if call, ok := fs.Store.Val.(*ssa.Call); ok {
+					if sl, ok := call.Common().Args[1].(*ssa.Slice); ok {
+						if al, ok := sl.X.(*ssa.Alloc); ok {
+							for _, r := range *al.Referrers() {
+								if ia, ok := r.(*ssa.IndexAddr); ok {
+									for _, rr := range *ia.Referrers() {
+										if st, ok := rr.(*ssa.Store); ok {
+											out = append(out, an.Strip(st.Val))
+										}
 									}
 								}
 							}
+						}
+					}
+				}
+			}
+			return out
+		}
+		for _, v := range appended(f) {
+			routeType = ptrNamed(v.Type())
+		}
+		if routeType == "" {
+			// the append lives in a helper of the mux that is given the route: `m.register(r)`
+			for _, ci := range an.Calls(f) {
+				h := an.StaticCallee(ci.Common())
+				if h == nil || !an.InModule(h) || len(h.Blocks) == 0 || !isCall(ci) || len(ci.Common().Args) == 0 || an.Strip(ci.Common().Args[0]) != ssa.Value(f.Params[0]) {
+					continue
+				}
+				for _, v := range appended(h) {
+					p, isP := v.(*ssa.Parameter)
+					if !isP {
+						continue
+					}
+					for i, hp := range h.Params {
+						if hp == p && i < len(ci.Common().Args) {
+							routeType = ptrNamed(an.Strip(ci.Common().Args[i]).Type())
 						}
 					}
 				}
